@@ -177,7 +177,7 @@ def lookupRouter (rs : List (Bytes × Nat × Nat)) (id : Bytes) (domain : Nat) :
 
 /-- hyperlane-cosmos warp `RemoteTransfer` (collateral token) + mailbox dispatch + default hook. -/
 def warpRemoteTransfer (cfg : Cfg) (c : Ctx) (token : Bytes) (domain : Nat) (amount gas : Int)
-    (feeDenom : String) (feeAmt : Int) : Res Ctx := do
+    (feeDenom : String) (feeAmt : Int) (customHook : Bytes) : Res Ctx := do
   let origin ← match lookupTok c.w.ext.hypTokens token with
     | some d => (pure d : Res String)
     | none => .err "warp:no-token"
@@ -187,6 +187,8 @@ def warpRemoteTransfer (cfg : Cfg) (c : Ctx) (token : Bytes) (domain : Nat) (amo
     | none => .err "warp:no-router"
   -- sdk.NewCoins(maxFee)
   if feeAmt < 0 || (feeAmt != 0 && !validDenom feeDenom) then (.panic "warp:NewCoins(maxFee)" : Res Unit) else pure ()
+  -- a custom post-dispatch hook must exist; the modelled environment registers none under a caller-chosen id
+  if !customHook.isEmpty then (.err "warp:unknown-hook" : Res Unit) else pure ()
   match c.w.ext.hypHook with
   | .noop => pure c
   | .igp idenom idomain rate price overhead =>
@@ -262,7 +264,7 @@ def hypController (cfg : Cfg) (φ : Faults) (c : Ctx) (t : TransferAttrs) (f : F
     let c := { c with reqs := c.reqs ++ [Req.warp "orbiter" tok domain rec_ t.dstAmount (if hook.isEmpty then none else some hook)
                 gas feeDenom feeAmt hmeta] }
     let c ← c.call φ "warp.RemoteTransfer"
-    warpRemoteTransfer cfg c tok domain t.dstAmount gas feeDenom feeAmt
+    warpRemoteTransfer cfg c tok domain t.dstAmount gas feeDenom feeAmt hook
   | _ => .err "hypctl:wrong-attributes"
 
 /-- bank `MsgSend` as reached from the internal controller. -/
